@@ -775,4 +775,5 @@ func runExtra(run *ev.Run) {
 	runExtraKeyset(run)
 	runExtraVerifiers(run)
 	runWire(run)
+	runPreempt(run)
 }
